@@ -1,3 +1,120 @@
+(* C44 — property theorems (statements pinned; proofs in Proofs.v). *)
 From GV Require Import lib.Base C44.Model C44.Proofs.
 Open Scope Z_scope.
-Theorem c44_placeholder : True. Proof. exact I. Qed.
+
+(* ---------- creation: validate_and_init accepts only well-formed, token-chained, duplicate-free paths ---------- *)
+Theorem c44_creation_validates :
+  forall cur_tokens plen slen paths tin1 tin2 tout1 tout2 m1 m2 toks,
+  validate_and_init cur_tokens plen slen paths tin1 tin2 tout1 tout2 = Ok (m1, m2, toks) ->
+  let q1 := firstn (Z.to_nat plen) paths in
+  let q2 := firstn (Z.to_nat slen) (skipn (Z.to_nat plen) paths) in
+  plen + slen <= MAX_STEPS /\ plen + slen <= Z.of_nat (length paths) /\
+  NoDup (map p_addr q1) /\ NoDup (map p_addr q2) /\
+  Forall (fun p => p_store_ok p = true /\ p_enabled p = true /\ p_long p <> p_short p) (q1 ++ q2) /\
+  m1 = map p_mt q1 /\ m2 = map p_mt q2 /\
+  chain q1 tin1 = Some tout1 /\ chain q2 tin2 = Some tout2 /\
+  NoDup toks /\ Z.of_nat (length toks) <= MAX_TOKENS /\
+  (forall t, In t cur_tokens -> In t toks) /\
+  (forall p, In p (q1 ++ q2) -> In (p_index p) toks /\ In (p_long p) toks /\ In (p_short p) toks).
+Proof. exact validate_and_init_spec. Qed.
+
+(* ---------- execution of one side ---------- *)
+(* On success: the current market is not among the swap markets; exactly one hop per declared market, in
+   order; every hop market has two distinct tokens, takes the running token and amount and hands on the other
+   token and its output amount; the run ends in the declared token with the last hop's output; the recorded
+   balances of all markets involved add up to the same totals per token as before; one abstract single-market
+   swap is consumed per hop. *)
+Theorem c44_one_side_follows_path : forall is_into s path expected tok amt s' out,
+  one_side is_into s path expected tok amt = Ok (s', out) ->
+  find (s_ms s) (mk_id (s_cur s)) = None /\
+  exists hops,
+    follows (lk s) path tok amt hops expected out /\
+    map hp_market hops = path /\ chain_amounts amt hops out /\
+    s_hops s' = rev hops ++ s_hops s /\ s_outs s = map hp_out hops ++ s_outs s' /\
+    (forall T, wtotal s' T = wtotal s T) /\
+    (forall id, lk s' id = lk s id).
+Proof.
+  intros. apply one_side_spec in H as (Hc & hops & (H1 & H2 & H3 & H4 & H5 & H6) & F).
+  split; auto. exists hops. repeat split; auto.
+  - eapply follows_markets; eauto.
+  - eapply follows_chain_amounts; eauto.
+Qed.
+
+(* ---------- both sides ---------- *)
+Theorem c44_revertible_swap_follows_paths :
+  forall is_into s p1 p2 exp1 exp2 tin1 tin2 a1 a2 s' o1 o2,
+  revertible_swap is_into s p1 p2 exp1 exp2 tin1 tin2 a1 a2 = Ok (s', o1, o2) ->
+  NoDup p1 /\ NoDup p2 /\
+  exists h1 h2,
+    s_hops s' = rev (h1 ++ h2) ++ s_hops s /\
+    (forall T, wtotal s' T = wtotal s T) /\
+    match tin1 with
+    | Some t => if a1 =? 0 then h1 = [] /\ o1 = 0 else follows (lk s) p1 t a1 h1 exp1 o1
+    | None => h1 = [] /\ o1 = 0
+    end /\
+    match tin2 with
+    | Some t => if a2 =? 0 then h2 = [] /\ o2 = 0 else follows (lk s) p2 t a2 h2 exp2 o2
+    | None => h2 = [] /\ o2 = 0
+    end.
+Proof.
+  intros. apply revertible_swap_spec in H as (N1 & N2 & h1 & h2 & (X1 & _ & _ & _ & _ & X6) & F1 & F2).
+  split; auto. split; auto. exists h1, h2. auto.
+Qed.
+
+(* what `follows` says, spelled out *)
+Theorem c44_follows_meaning : forall lk0 path tok amt hops tok' amt',
+  follows lk0 path tok amt hops tok' amt' ->
+  map hp_market hops = path /\ chain_amounts amt hops amt' /\
+  Forall (fun mt => exists l s, lk0 mt = Some (l, s) /\ l <> s) path.
+Proof.
+  intros. split; [eapply follows_markets; eauto|]. split; [eapply follows_chain_amounts; eauto|].
+  eapply follows_no_pure; eauto.
+Qed.
+
+(* ---------- no-op steps and duplicates ---------- *)
+Theorem c44_noop_step_rejected : forall m tok amt outs,
+  is_pure m = true -> exists e, do_swap m tok amt outs = Err e.
+Proof. exact do_swap_pure. Qed.
+
+Theorem c44_duplicate_path_rejected_at_execution :
+  forall is_into s p1 p2 exp1 exp2 tin1 tin2 a1 a2,
+  ~ NoDup p1 \/ ~ NoDup p2 ->
+  exists e, revertible_swap is_into s p1 p2 exp1 exp2 tin1 tin2 a1 a2 = Err e.
+Proof.
+  intros. destruct (revertible_swap is_into s p1 p2 exp1 exp2 tin1 tin2 a1 a2) as [[[s' o1] o2]|e] eqn:E; eauto.
+  apply revertible_swap_spec in E as (N1 & N2 & _). tauto.
+Qed.
+
+(* ---------- the bank layer moves exactly the swapped amount ---------- *)
+Theorem c44_record_in_exact : forall m tok amt m',
+  rec_in m tok amt = Ok m' ->
+  same_tokens m m' /\ (tok = mk_long m \/ tok = mk_short m) /\
+  forall T, bal_of m' T = bal_of m T + (if T =? tok then amt else 0).
+Proof. exact rec_in_spec. Qed.
+
+Theorem c44_record_out_exact : forall m tok amt m',
+  rec_out m tok amt = Ok m' ->
+  same_tokens m m' /\ (tok = mk_long m \/ tok = mk_short m) /\
+  forall T, bal_of m' T = bal_of m T - (if T =? tok then amt else 0).
+Proof. exact rec_out_spec. Qed.
+
+(* ---------- non-vacuity ---------- *)
+Definition demo_ms : list mk := [mkMk 1 10 11 500 500; mkMk 2 11 12 500 500].
+Definition demo_cur : mk := mkMk 0 12 13 500 500.
+
+(* Into the current market 0 (tokens 12/13): 100 of token 10 through markets 1, 2 and 0 *)
+Example c44_demo_into :
+  match revertible_swap true (mkSt demo_ms demo_cur [90; 80; 70] []) [1; 2; 0] [] 13 13 (Some 10) None 100 0 with
+  | Ok (s, o1, o2) =>
+      o1 = 70 /\ o2 = 0 /\ map hp_market (rev (s_hops s)) = [1; 2; 0] /\
+      s_ms s = [mkMk 1 10 11 500 410; mkMk 2 11 12 590 420] /\ s_cur s = mkMk 0 12 13 580 500
+  | Err _ => False
+  end.
+Proof. vm_compute. repeat split. Qed.
+
+(* a pure market on the path, a duplicate, and a wrong declared output all fail *)
+Example c44_demo_rejects :
+  revertible_swap true (mkSt [mkMk 5 12 12 500 0] demo_cur [90] []) [5] [] 12 12 (Some 12) None 100 0 = Err 3 /\
+  revertible_swap true (mkSt demo_ms demo_cur [90; 80; 70] []) [1; 1] [] 13 13 (Some 10) None 100 0 = Err 1 /\
+  revertible_swap false (mkSt demo_ms demo_cur [90; 80; 70] []) [2; 1] [] 11 11 (Some 12) None 100 0 = Err 1.
+Proof. vm_compute. repeat split. Qed.
